@@ -43,3 +43,87 @@ by rewrite -!addrA.
 Qed.
 
 End Quad.
+
+(* ---------- DMDc variants: the returned state block is A = Q M Q^T with Q^T Q = 1 (retained left
+   singular vectors) and M the constrained reduced operator.  Every eigenpair of A with a
+   non-zero eigenvalue comes from an eigenpair of M with the same eigenvalue, so a bound on
+   the spectrum of M is a bound on the non-zero spectrum of A. *)
+Section DmdcLift.
+Variable F : fieldType.
+
+Lemma dmdc_lift_eigen p r (Q : 'M[F]_(p, r)) (M : 'M[F]_r) (v : 'cV[F]_p) (lam : F) :
+  Q^T *m Q = 1%:M -> lam != 0 -> v != 0 ->
+  (Q *m M *m Q^T) *m v = lam *: v ->
+  M *m (Q^T *m v) = lam *: (Q^T *m v) /\ Q^T *m v != 0.
+Proof.
+move=> QQ l0 v0 H.
+have H1 : M *m (Q^T *m v) = lam *: (Q^T *m v).
+  have := congr1 (mulmx Q^T) H.
+  by rewrite !mulmxA QQ mul1mx -scalemxAr -!mulmxA.
+split=> //. apply/negP => /eqP z0.
+move: H; rewrite -!mulmxA z0 !mulmx0 => /esym/eqP.
+by rewrite scaler_eq0 (negbTE l0) (negbTE v0).
+Qed.
+
+End DmdcLift.
+
+(* ---------- dissipativity block
+   [[P - C^T Xi11 C, -C^T Xi12, A^T P], [-Xi12^T C, -Xi22, B^T P], [P A, P B, P]]
+   on the stacked vector [x; u; z]: the form dissip_form of AlgR/Dissip.v (before symmetry of P
+   and of the cross terms is used) *)
+Section DissipBlock.
+Variable R : comRingType.
+Variables n m : nat.
+Variables (P A : 'M[R]_n) (B : 'M[R]_(n, m)) (C : 'M[R]_n).
+Variables (Xi11 : 'M[R]_n) (Xi12 : 'M[R]_(n, m)) (Xi22 : 'M[R]_m).
+
+Definition dissip_block_mx : 'M[R]_((n + m) + n) :=
+  block_mx (block_mx (P - C^T *m Xi11 *m C) (- (C^T *m Xi12))
+                     (- (Xi12^T *m C)) (- Xi22))
+           (col_mx (A^T *m P) (B^T *m P))
+           (row_mx (P *m A) (P *m B))
+           P.
+
+(* the ten terms, in the order in which the block product yields them *)
+Lemma dissip_block_quad (x z : 'cV[R]_n) (u : 'cV[R]_m) :
+  (col_mx (col_mx x u) z)^T *m dissip_block_mx *m col_mx (col_mx x u) z
+  = x^T *m P *m x - (C *m x)^T *m Xi11 *m (C *m x) - u^T *m Xi12^T *m (C *m x)
+    + (- ((C *m x)^T *m Xi12 *m u) - u^T *m Xi22 *m u)
+    + (z^T *m P *m (A *m x) + z^T *m P *m (B *m u))
+    + ((A *m x)^T *m P *m z + (B *m u)^T *m P *m z + z^T *m P *m z).
+Proof.
+rewrite /dissip_block_mx !tr_col_mx !mul_row_block !mul_row_col.
+rewrite !mulmxDl !mulmxDr !mul_row_col !mulmxDl.
+rewrite -[z^T *m row_mx _ _ *m _]mulmxA mul_row_col mulmxDr !mulmxN !mulNmx !trmx_mul !mulmxA.
+by [].
+Qed.
+
+End DissipBlock.
+
+(* ---------- H-infinity block (the bounded-real form the code builds)
+   [[P, A P, B, 0], [P^T A^T, P, 0, P C^T], [B^T, 0, g I, D^T], [0, C P^T, D, g I]]
+   on the stacked vector [a; b; c; d] *)
+Section HinfBlock.
+Variable R : comRingType.
+Variables n m l : nat.
+Variables (P A : 'M[R]_n) (B : 'M[R]_(n, m)) (C : 'M[R]_(l, n)) (D : 'M[R]_(l, m)) (g : R).
+
+Definition hinf_block_mx : 'M[R]_((n + n) + (m + l)) :=
+  block_mx (block_mx P (A *m P) (P^T *m A^T) P)
+           (block_mx B 0 0 (P *m C^T))
+           (block_mx B^T 0 0 (C *m P^T))
+           (block_mx (g%:M) D^T D (g%:M)).
+
+(* the twelve terms, in the order in which the block product yields them *)
+Lemma hinf_block_quad (a b : 'cV[R]_n) (c : 'cV[R]_m) (d : 'cV[R]_l) :
+  (col_mx (col_mx a b) (col_mx c d))^T *m hinf_block_mx *m col_mx (col_mx a b) (col_mx c d)
+  = a^T *m P *m a + b^T *m P^T *m A^T *m a + c^T *m B^T *m a
+    + (a^T *m A *m P *m b + b^T *m P *m b + d^T *m C *m P^T *m b)
+    + (a^T *m B *m c + (c^T *m g%:M *m c + d^T *m D *m c)
+       + (b^T *m P *m C^T *m d + (c^T *m D^T *m d + d^T *m g%:M *m d))).
+Proof.
+rewrite /hinf_block_mx !tr_col_mx !mul_row_block !mul_row_col.
+by rewrite !add_row_mx !mul_row_col !mulmx0 !addr0 !add0r !mulmxDl !mulmxA.
+Qed.
+
+End HinfBlock.
